@@ -941,7 +941,9 @@ class Interp:
             container = self.resolve(container)
         if isinstance(container, (SStr, str)) and isinstance(x, (SStr, str)) and \
                 (isinstance(container, SStr) or isinstance(x, SStr)):
-            from . import strings
+            from . import strings, charclass
+            if isinstance(x, str) and isinstance(container, SStr):
+                charclass.contains_link_pattern(self, container.t, z3.StringVal(x))
             return wrap(z3.Contains(strings.norm(self, to_z3(container)), strings.norm(self, to_z3(x))))
         if isinstance(container, SList):
             from . import models
